@@ -19,6 +19,52 @@ type c12Case struct {
 	Mutation   string `json:"mutation"`
 }
 
+type c12Mut struct {
+	name string
+	g    *protocoltypes.Group
+}
+
+// c12Mutations is the catalogue of altered invitations: every single-bit flip, removal and truncation of the three
+// byte fields, every other group type, and secret/signature taken from another invitation.
+func c12Mutations(seed int64, inv *protocoltypes.Group) []c12Mut {
+	var muts []c12Mut
+	flipAll := func(field string, get func(g *protocoltypes.Group) *[]byte) {
+		n := len(*get(inv))
+		for bit := 0; bit < n*8; bit++ {
+			g := proto.Clone(inv).(*protocoltypes.Group)
+			b := append([]byte{}, (*get(g))...)
+			b[bit/8] ^= 1 << uint(bit%8)
+			*get(g) = b
+			muts = append(muts, c12Mut{fmt.Sprintf("bitflip-%s", field), g})
+		}
+		g := proto.Clone(inv).(*protocoltypes.Group)
+		*get(g) = nil
+		muts = append(muts, c12Mut{"removed-" + field, g})
+		g2 := proto.Clone(inv).(*protocoltypes.Group)
+		*get(g2) = (*get(g2))[:n-1]
+		muts = append(muts, c12Mut{"truncated-" + field, g2})
+	}
+	flipAll("public-key", func(g *protocoltypes.Group) *[]byte { return &g.PublicKey })
+	flipAll("secret", func(g *protocoltypes.Group) *[]byte { return &g.Secret })
+	flipAll("signature", func(g *protocoltypes.Group) *[]byte { return &g.SecretSig })
+	for _, gt := range []int32{0, 1, 2, 4, -1, 99} {
+		g := proto.Clone(inv).(*protocoltypes.Group)
+		g.GroupType = protocoltypes.GroupType(gt)
+		muts = append(muts, c12Mut{fmt.Sprintf("group-type-%d", gt), g})
+	}
+	// secret and signature taken from another invitation
+	other := vDetGroup(seed, "c12-other")
+	{
+		g := proto.Clone(inv).(*protocoltypes.Group)
+		g.Secret, g.SecretSig = other.Secret, other.SecretSig
+		muts = append(muts, c12Mut{"secret-and-signature-of-another-group", g})
+		g2 := proto.Clone(inv).(*protocoltypes.Group)
+		g2.Secret = other.Secret
+		muts = append(muts, c12Mut{"secret-of-another-group", g2})
+	}
+	return muts
+}
+
 func TestVerifC12(t *testing.T) {
 	rep := vrep.New("C12")
 	defer func() {
@@ -52,45 +98,7 @@ func TestVerifC12(t *testing.T) {
 	}
 	for _, label := range []string{"inv-1", "inv-2"} {
 		inv := vDetGroup(seed, "c12-"+label)
-		type mut struct {
-			name string
-			g    *protocoltypes.Group
-		}
-		var muts []mut
-		flipAll := func(field string, get func(g *protocoltypes.Group) *[]byte) {
-			n := len(*get(inv))
-			for bit := 0; bit < n*8; bit++ {
-				g := proto.Clone(inv).(*protocoltypes.Group)
-				b := append([]byte{}, (*get(g))...)
-				b[bit/8] ^= 1 << uint(bit%8)
-				*get(g) = b
-				muts = append(muts, mut{fmt.Sprintf("bitflip-%s", field), g})
-			}
-			g := proto.Clone(inv).(*protocoltypes.Group)
-			*get(g) = nil
-			muts = append(muts, mut{"removed-" + field, g})
-			g2 := proto.Clone(inv).(*protocoltypes.Group)
-			*get(g2) = (*get(g2))[:n-1]
-			muts = append(muts, mut{"truncated-" + field, g2})
-		}
-		flipAll("public-key", func(g *protocoltypes.Group) *[]byte { return &g.PublicKey })
-		flipAll("secret", func(g *protocoltypes.Group) *[]byte { return &g.Secret })
-		flipAll("signature", func(g *protocoltypes.Group) *[]byte { return &g.SecretSig })
-		for _, gt := range []int32{0, 1, 2, 4, -1, 99} {
-			g := proto.Clone(inv).(*protocoltypes.Group)
-			g.GroupType = protocoltypes.GroupType(gt)
-			muts = append(muts, mut{fmt.Sprintf("group-type-%d", gt), g})
-		}
-		// secret and signature taken from another invitation
-		other := vDetGroup(seed, "c12-other")
-		{
-			g := proto.Clone(inv).(*protocoltypes.Group)
-			g.Secret, g.SecretSig = other.Secret, other.SecretSig
-			muts = append(muts, mut{"secret-and-signature-of-another-group", g})
-			g2 := proto.Clone(inv).(*protocoltypes.Group)
-			g2.Secret = other.Secret
-			muts = append(muts, mut{"secret-of-another-group", g2})
-		}
+		muts := c12Mutations(seed, inv)
 		for _, m := range muts {
 			err, appended, pan := tryJoin(m.g)
 			cls := m.name
